@@ -8,8 +8,8 @@ import (
 
 	"pgregory.net/rapid"
 
-	"github.com/openconfig/gribigo/rib"
 	spb "github.com/openconfig/gribi/v1/proto/service"
+	"github.com/openconfig/gribigo/rib"
 
 	"verifh/internal/drive"
 	"verifh/internal/ev"
@@ -31,6 +31,8 @@ type Case struct {
 	Every int `json:"every,omitempty"`
 	// Net: the server sits behind a real grpc.Server over bufconn (every response is marshalled)
 	Net bool `json:"net,omitempty"`
+	// VRFs, when set: the server's non-default instances (default {VRF-A, VRF-B})
+	VRFs []string `json:"vrfs,omitempty"`
 }
 
 func setup() {
@@ -82,10 +84,10 @@ func getReq(ni string, a spb.AFTType) *spb.GetRequest {
 }
 
 // matrix issues the whole request matrix and checks it.
-func matrix(s *drive.Srv, m *model.RIB, v *ev.Verdict) {
+func matrix(s *drive.Srv, m *model.RIB, v *ev.Verdict, names []string) {
 	got := map[string]obs.State{}
 	var allResp []*spb.GetResponse
-	for _, ni := range []string{"DEFAULT", "VRF-A", "VRF-B", "all"} {
+	for _, ni := range append(append([]string(nil), names...), "all") {
 		for _, a := range afts {
 			name := fmt.Sprintf("Get(%s,%s)", ni, a)
 			rs, err, hg := s.Get(getReq(ni, a), 0)
@@ -135,7 +137,7 @@ func matrix(s *drive.Srv, m *model.RIB, v *ev.Verdict) {
 		return
 	}
 	// metamorphic relations
-	for _, ni := range []string{"DEFAULT", "VRF-A", "VRF-B", "all"} {
+	for _, ni := range append(append([]string(nil), names...), "all") {
 		union := obs.State{}
 		n := 0
 		for _, a := range afts[1:] {
@@ -153,7 +155,7 @@ func matrix(s *drive.Srv, m *model.RIB, v *ev.Verdict) {
 	}
 	for _, a := range afts {
 		union := obs.State{}
-		for _, ni := range []string{"DEFAULT", "VRF-A", "VRF-B"} {
+		for _, ni := range names {
 			for k, p := range got[ni+"/"+a.String()] {
 				union[k] = p
 			}
@@ -217,7 +219,11 @@ var fieldNames = []string{"pop_top_label", "entry_metadata", "weight", "backup_n
 func runCase(c Case) *ev.Verdict {
 	fields := map[string]bool{}
 	nis := map[string]bool{}
-	v, _ := l2.RunHistory(c.H, l2.Opts{P: "C07", Trusted: true, Batch: c.Batch, ObserveEvery: c.Every, Net: c.Net, Final: func(s *drive.Srv, m *model.RIB, vv *ev.Verdict) {
+	names := hgen.NIs
+	if c.VRFs != nil {
+		names = append([]string{"DEFAULT"}, c.VRFs...)
+	}
+	v, _ := l2.RunHistory(c.H, l2.Opts{P: "C07", Trusted: true, Batch: c.Batch, ObserveEvery: c.Every, Net: c.Net, VRFs: c.VRFs, Final: func(s *drive.Srv, m *model.RIB, vv *ev.Verdict) {
 		for k, p := range m.Ent {
 			nis[k.NI] = true
 			txt := fmt.Sprint(p)
@@ -227,7 +233,7 @@ func runCase(c Case) *ev.Verdict {
 				}
 			}
 		}
-		matrix(s, m, vv)
+		matrix(s, m, vv, names)
 	}})
 	for f := range fields {
 		v.Class("field:" + f)
@@ -296,6 +302,44 @@ func TestCampaign(t *testing.T) {
 			if wild != "" {
 				v.Class("renamed:" + wild)
 			}
+			col.Check(rt, ev.JSON(c), v)
+		})
+	})
+	t.Run("many-instances", func(t *testing.T) {
+		// servers with 0-20 non-default instances (sizes around 4, 8 and 16 preferred) holding a
+		// next-hop, a group and one or two prefixes in a drawn subset of them
+		sizes := []int{0, 1, 2, 3, 4, 5, 6, 7, 8, 9, 12, 15, 16, 17, 20}
+		rapid.Check(t, func(rt *rapid.T) {
+			if rapid.IntRange(0, 3).Draw(rt, "run?") != 0 {
+				return
+			}
+			n := sizes[rapid.IntRange(0, len(sizes)-1).Draw(rt, "instances")]
+			c := Case{VRFs: []string{}, Batch: []int{rapid.IntRange(1, 8).Draw(rt, "batch")}}
+			for i := 0; i < n; i++ {
+				c.VRFs = append(c.VRFs, fmt.Sprintf("VRF-%02d", i))
+			}
+			c.H.FwdRefs = true
+			id := uint64(0)
+			add := func(o *gen.Op) {
+				id++
+				o.ID = id
+				c.H.Steps = append(c.H.Steps, hgen.Step{Op: o})
+			}
+			for i, ni := range append([]string{"DEFAULT"}, c.VRFs...) {
+				if n > 2 && rapid.IntRange(0, 3).Draw(rt, "skip-instance") == 0 && i != n {
+					continue // the last instance is always populated
+				}
+				add(&gen.Op{NI: ni, Kind: gen.NH, Act: gen.ADD, Key: fmt.Sprint(i + 1), IP: fmt.Sprintf("192.0.2.%d", i+1)})
+				add(&gen.Op{NI: ni, Kind: gen.NHG, Act: gen.ADD, Key: fmt.Sprint(i + 1), Hops: []gen.Hop{{Index: uint64(i + 1)}}})
+				add(&gen.Op{NI: ni, Kind: gen.V4, Act: gen.ADD, Key: fmt.Sprintf("10.%d.0.0/16", i), Group: uint64(i + 1)})
+				if rapid.Bool().Draw(rt, "more") {
+					add(&gen.Op{NI: ni, Kind: gen.V6, Act: gen.ADD, Key: fmt.Sprintf("2001:db8:%x::/48", i), Group: uint64(i + 1)})
+					add(&gen.Op{NI: ni, Kind: gen.MPLS, Act: gen.ADD, Key: fmt.Sprint(100 + i), Group: uint64(i + 1)})
+				}
+			}
+			v := runCase(c)
+			v.Class(fmt.Sprintf("instances:%d", n+1))
+			v.NonTrivial = n >= 2
 			col.Check(rt, ev.JSON(c), v)
 		})
 	})
